@@ -57,7 +57,7 @@ def plan(tier, seed):
     q = tier == "quick"
     shards = []
     for i in range(8 if q else 24):
-        shards.append({"kind": "derive", "n": 320 if q else 7000, "label": "derive%d" % i})
+        shards.append({"kind": "derive", "n": 450 if q else 7000, "label": "derive%d" % i})
     shards.append({"kind": "derive", "n": 30 if q else 800, "env": {"PYCOIN_NATIVE": "none"}, "label": "derive-purepython"})
     for i in range(2 if q else 4):
         shards.append({"kind": "nets", "per_net": 4 if q else 40, "part": i, "parts": 2 if q else 4, "label": "nets%d" % i})
